@@ -875,16 +875,15 @@ func controllingConds(in ssa.Instruction) []ssa.Value {
 		// the instruction's block is reached through exactly one successor of d — and not from
 		// the other one as well (the join after an `if` without else is a successor of the test,
 		// but both branches arrive there)
-		through, reachable := 0, 0
+		// (a successor that is the head of an enclosing loop dominates the block without
+		// leading to it: only reachability without coming back to the test counts)
+		reachable := 0
 		for _, s := range d.Succs {
-			if s == b || s.Dominates(b) {
-				through++
-			}
 			if s == b || blockReachesAvoiding(s, b, d) {
 				reachable++
 			}
 		}
-		if through == 1 && reachable < len(d.Succs) {
+		if reachable >= 1 && reachable < len(d.Succs) {
 			out = append(out, v)
 		}
 	}
